@@ -18,7 +18,7 @@ struct C16 : Harness {
         bool ctr = kind_is_ctr(kind), mant = kind == CM || kind == PM;
         Op n = mkop(std::string("new.") + kname(kind));
         n.set("fill", prior == 0 ? 0 : prior == 1 ? 0xFF : prior == 2 ? fillbyte : 0);
-        n.set("amode", fillbyte % 3);      // placement of the blocks handed to the library: natural / 16 mod 32 / 32-aligned
+        n.set("amode", fillbyte % 9);      // placement of the blocks handed to the library: natural / 16 mod 32 / 32-aligned
         if (prior == 4) n.set("plant", 1).set("fill", fillbyte);
         p.push_back(n);
         auto keyop = [&](bool inv) {
